@@ -27,10 +27,11 @@ const (
 	SdGarbage                   // undecodable
 	SdEmpty                     // zero-length read
 	SdNoIP                      // valid, sender has no IP (nil)
-	SdZeroIP                    // valid, sender 0.0.0.0:68
+	SdZeroIP                    // valid, sender 0.0.0.0:1068
+	SdOdd                       // decodable but unusual: hlen 200 (v4) / unknown message type (v6)
 )
 
-var sdNames = [...]string{"validA", "validB", "garbage", "empty", "noip", "zeroip"}
+var sdNames = [...]string{"validA", "validB", "garbage", "empty", "noip", "zeroip", "odd"}
 
 type ServerScenario struct {
 	Name     string
@@ -54,6 +55,7 @@ func (s *ServerScenario) String() string {
 type srvInvocation struct {
 	serial     int
 	peer       string
+	peerObj    net.Addr
 	atStart    []byte
 	atEnd      func() []byte
 	mutated    bool
@@ -86,9 +88,9 @@ func srvDatagram(v6 bool, k SrvDgKind, serial int) ([]byte, net.Addr) {
 	case SdNoIP:
 		from = &net.UDPAddr{IP: nil, Port: 68}
 	case SdZeroIP:
-		from = &net.UDPAddr{IP: net.IPv4zero, Port: 68}
+		from = &net.UDPAddr{IP: net.IPv4zero, Port: 1068}
 		if v6 {
-			from = &net.UDPAddr{IP: net.IPv6unspecified, Port: 546}
+			from = &net.UDPAddr{IP: net.IPv6unspecified, Port: 1546}
 		}
 	case SdValidB:
 		from = &net.UDPAddr{IP: net.IPv4(10, 0, 0, 8), Port: 1068}
@@ -105,13 +107,21 @@ func srvDatagram(v6 bool, k SrvDgKind, serial int) ([]byte, net.Addr) {
 			p.UpdateOption(dhcpv4.OptHostName(fmt.Sprintf("host-%d", serial)))
 			p.UpdateOption(dhcpv4.OptRequestedIPAddress(net.IPv4(10, 0, 0, byte(100+serial))))
 		}
-		return p.ToBytes(), from
+		b := p.ToBytes()
+		if k == SdOdd {
+			b[2] = 200 // hardware address length beyond the 16-byte field
+		}
+		return b, from
 	}
 	m := &dhcpv6.Message{MessageType: dhcpv6.MessageTypeSolicit, TransactionID: dhcpv6.TransactionID{9, 8, byte(serial)}}
 	m.AddOption(dhcpv6.OptClientID(&dhcpv6.DUIDLL{HWType: 1, LinkLayerAddr: clientMAC}))
 	m.AddOption(&dhcpv6.OptionGeneric{OptionCode: dhcpv6.OptionCode(serialOpt6), OptionData: tag})
+	if k == SdOdd {
+		m.MessageType = dhcpv6.MessageType(200)
+	}
 	if k == SdValidB {
 		m.MessageType = dhcpv6.MessageTypeRequest
+		m.AddOption(&dhcpv6.OptRemoteID{EnterpriseNumber: 7, RemoteID: []byte(fmt.Sprintf("remote-%d", serial))})
 		m.AddOption(dhcpv6.OptDomainSearchList(&rfc1035label.Labels{Labels: []string{fmt.Sprintf("d%d.example.org", serial)}}))
 		r, _ := dhcpv6.EncapsulateRelay(m, dhcpv6.MessageTypeRelayForward, net.ParseIP("2001:db8::1"), net.ParseIP("fe80::2"))
 		r2, _ := dhcpv6.EncapsulateRelay(r, dhcpv6.MessageTypeRelayForward, net.ParseIP("2001:db8::2"), net.ParseIP("fe80::3"))
@@ -191,6 +201,7 @@ func (s *ServerScenario) body(out **srvRun) func() {
 			inv := &srvInvocation{serial: serial, atStart: snap(), atEnd: snap}
 			if peer != nil {
 				inv.peer = peer.String()
+				inv.peerObj = peer
 			}
 			inv.seq = h.add(Event{Kind: EvHandler, Dg: serial})
 			run.inv = append(run.inv, inv)
@@ -341,6 +352,9 @@ func (s *ServerScenario) check(run *srvRun, ex *vs.Exec) (string, string) {
 		if inv.peer != want {
 			return fail("peer", fmt.Sprintf("handler for datagram %d got peer %s, want %s", inv.serial, inv.peer, want))
 		}
+		if inv.peerObj != nil && inv.peerObj.String() != want {
+			return fail("peer-changed-later", fmt.Sprintf("peer handed to the handler of datagram %d now reads %s, was %s", inv.serial, inv.peerObj.String(), want))
+		}
 	}
 	var outc []string
 	for i := range s.Dgs {
@@ -423,7 +437,7 @@ func c14Scenarios(tier string) []Scenario {
 	if thorough {
 		maxLen = 4
 	}
-	kinds := []SrvDgKind{SdValidA, SdValidB, SdGarbage, SdEmpty, SdNoIP, SdZeroIP}
+	kinds := []SrvDgKind{SdValidA, SdValidB, SdGarbage, SdEmpty, SdNoIP, SdZeroIP, SdOdd}
 	var seqs [][]SrvDgKind
 	seqs = append(seqs, nil)
 	prev := [][]SrvDgKind{nil}
